@@ -13,6 +13,7 @@ import (
 	"sync"
 	"testing"
 	"time"
+	"verif/harness/sim"
 )
 
 // Shared bookkeeping for every check: what was generated, what was non-trivial, known findings hit,
@@ -96,7 +97,27 @@ func newStats(t testing.TB, property, rule string) *stats {
 		maxSamples: 6,
 	}
 	t.Cleanup(func() { s.Done = true; s.flush() })
+	activeStats = s
+	sim.OnWedge = wedgeHandler
 	return s
+}
+
+var activeStats *stats
+
+// wedgeHandler: one of the harness's hook calls into the node never returned (see sim.OnWedge). For C08 that is the
+// property at stake and - when the goroutine profiles confirm that every goroutine inside the node is parked - a
+// violation; for every other check it means the check cannot go on (inconclusive). Either way the process ends here
+// instead of hanging until its hard timeout.
+func wedgeHandler(what string, confirmed bool, stacks string) {
+	if s := activeStats; s != nil {
+		if confirmed && s.Property == "C08" {
+			s.reportOnce("node-wedged", fmt.Sprintf("the node stopped answering (%s never returned) and every goroutine inside it is parked, unchanged over 5 profiles:\n%s", what, stacks), map[string]string{"hook": what})
+		} else {
+			s.inconclusive(fmt.Sprintf("the node stopped answering (%s never returned; parked for good: %v) - C08's concern, this check cannot continue", what, confirmed))
+		}
+		s.flush()
+	}
+	os.Exit(3)
 }
 
 // loadKnown reads the committed known-findings file: lines `finding: property=Cxx sig=<sig> :: text`.
